@@ -11,8 +11,8 @@ Line driver for C20.
 
 `<oracle>` as for C19.  `<keys>`: `-` or `;`-separated `blob=canon` entries (`blob==` when the blob is its own
 canonical encoding): what keypair.DeserializePublicKey/SerializePublicKey say about a bookkeeper blob; a blob that is
-not listed is not a key.  All three variants of the model (as shipped, count handling repaired, sound) are run; the
-distinct outputs are joined by ` ## `.
+not listed is not a key.  Both variants of the model (as shipped, sound) are run; when they differ the line is
+`asShipped ## sound`.
 -/
 namespace OntVerif.Driver.C20
 open OntVerif.Util OntVerif.Model.Codec OntVerif.Model.Tx OntVerif.Model.Block OntVerif.Model.TxSha256
@@ -48,7 +48,7 @@ def resW {α : Type} (f : α → String) : Res α → String
 
 def joinDistinct (outs : List String) : String := " ## ".intercalate outs.eraseDups
 
-def variants : List Variant := [.asShipped, .countFixed, .sound]
+def variants : List Variant := [.asShipped, .sound]
 
 def rawHeaderW (h : RawHeader) : String := s!"height={h.height} payload={hexL h.payload}"
 
@@ -73,11 +73,11 @@ def handle (line : String) : String :=
     | _, _ => "bad-op"
   | ["R", bx] =>
     match unbx bx with
-    | some bs => joinDistinct (variants.map fun V => resW rawHeaderW (parseRawHeader V ⟨bs, 0⟩))
+    | some bs => resW rawHeaderW (parseRawHeader ⟨bs, 0⟩)
     | none => "bad-op"
   | ["X", bx] =>
     match unbx bx with
-    | some bs => joinDistinct (variants.map fun V => resW ccmW (parseCCMsg V ⟨bs, 0⟩))
+    | some bs => resW ccmW (parseCCMsg ⟨bs, 0⟩)
     | none => "bad-op"
   | ["M", hs] =>
     if hs == "-" then hexOf (computeMerkleRoot hashes.node []) else
